@@ -10,6 +10,10 @@ CORPUS = ["#[darling] struct R { a: u8 }", '#[darling = "x"] struct R { a: u8 }'
           "union R { a: u8 }", "struct R { #[darling] a: u8 }", "struct R { #[darling(1)] a: u8 }", "enum R { #[darling(a b)] A }",
           "struct R;", "struct R {}", "enum R { #[darling(skip)] A(u8, u8), B }", "struct R<T> { a: Box<dyn ~const Tr<T>> }",
           "#[darling(default = 1, bogus, rename_all = \"x\")] struct R { #[darling(flatten, flatten)] a: u8, #[darling(flatten)] b: u8 }"]
+# every variant body under every spelling of `skip` (only a variant that IS skipped may have an unrepresentable body)
+CORPUS += ["enum R { %s A%s, B }" % (opt, body)
+           for opt in ("", "#[darling(skip)]", "#[darling(skip = true)]", "#[darling(skip = false)]", "#[darling(skip())]")
+           for body in ("", "(u8)", "(u8, u8)", "()", " { a: u8 }", " {}")]
 
 
 def run(tier, seed, replay=None):
